@@ -492,6 +492,14 @@ def gen_history(rng, policy, machine, machine_path, nevents=40, profile='mixed',
     return dict(name=name, machine=machine_path, policy=policy, config=cfg, events=w.events)
 
 
+# well-formed YAML/JSON of the wrong shape (null elements, missing members, wrong types) for the structured annotations
+YJUNK = ['ctr0: [null]', 'ctr0: null', 'ctr0:\n- null', 'ctr0: [{}]', 'ctr0: [{scope: null, match: null}]', '[null]', 'ctr0: [ctr1, null]',
+         'ctr0: [{match: {key: name, operator: Equals}}]', 'ctr0: [{match: {key: name, operator: Matches, values: []}}]', '{ctr0: [{weight: 99999999999}]}',
+         'ctr0: [{scope: {operator: In}, match: {key: name, operator: In, values: [null]}}]', '- null', '[{}]', '- {provider: null}', 'ctr0: {}', '{}', '[]',
+         'ctr0: [null, {}]', 'ctr0: [{match: {key: name, operator: Exists}}, null]', 'ctr0:\n- scope:\n    key: name\n    operator: Exists\n  match:\n    key: name\n    operator: NotIn\n    values: [x]\n  weight: -5000\n- null',
+         'ctr0: [{match: {key: name, operator: Exists}, weight: 2147483647}]', 'ctr1: [ctr0]', 'ctr0: [ctr0, ctr0]']
+
+
 def malformed_event(w):
     """events naming unknown / forgotten ids, duplicated or out-of-order lifecycle events,
     junk annotation values, absent sub-messages"""
@@ -499,11 +507,7 @@ def malformed_event(w):
     k = r.randrange(14)
     junk = ['', 'x', '-1', 'true false', '{', '[1,2', '9' * 40, 'null', '\x00', 'dram,,pmem', '{"a":1}', '- a\n- b', 'TRUE', '0x10']
     # well-formed YAML/JSON of the wrong shape (null elements, missing members, wrong types) for the structured annotations
-    yjunk = ['ctr0: [null]', 'ctr0: null', 'ctr0:\n- null', 'ctr0: [{}]', 'ctr0: [{scope: null, match: null}]', '[null]', 'ctr0: [ctr1, null]',
-             'ctr0: [{match: {key: name, operator: Equals}}]', 'ctr0: [{match: {key: name, operator: Matches, values: []}}]', '{ctr0: [{weight: 99999999999}]}',
-             'ctr0: [{scope: {operator: In}, match: {key: name, operator: In, values: [null]}}]', '- null', '[{}]', '- {provider: null}', 'ctr0: {}', '{}', '[]',
-             'ctr0: [null, {}]', 'ctr0: [{match: {key: name, operator: Exists}}, null]', 'ctr0:\n- scope:\n    key: name\n    operator: Exists\n  match:\n    key: name\n    operator: NotIn\n    values: [x]\n  weight: -5000\n- null',
-             'ctr0: [{match: {key: name, operator: Exists}, weight: 2147483647}]', 'ctr1: [ctr0]', 'ctr0: [ctr0, ctr0]']
+    yjunk = YJUNK
     if k == 0:
         w.emit('StopPodSandbox', pod=dict(id='nosuch-pod'))
     elif k == 1:
